@@ -187,5 +187,13 @@ JoinAt(ts, k, w, i) ==
   IF ts = << >> THEN "" ELSE IF Len(ts) = 1 THEN ts[1]
   ELSE ts[1] \o (IF i = k THEN w ELSE IF NeedsSep(ts[1], ts[2]) THEN " " ELSE "") \o JoinAt(Tail(ts), k, w, i + 1)
 RenderAt(e, k, w) == JoinAt(Toks(e, "min"), k, w, 1)
+\* the tightest spelling: XPath 1.0 3.7 takes the longest token, and a Number holds no letters, so an operator name may
+\* follow a number without any blank ("7mod 3", "1and 0", "(8div 2)mod 3")
+IsNumTokT(t) == t \notin {".", ".."} /\ Ch(t, 1) \in {"0", "1", "2", "3", "4", "5", "6", "7", "8", "9", "."}
+NeedsSepTight(t1, t2) == NeedsSep(t1, t2) /\ ~(IsNumTokT(t1) /\ t2 \in {"and", "or", "div", "mod"})
+RECURSIVE JoinTight(_)
+JoinTight(ts) == IF ts = << >> THEN "" ELSE IF Len(ts) = 1 THEN ts[1]
+                 ELSE ts[1] \o (IF NeedsSepTight(ts[1], ts[2]) THEN " " ELSE "") \o JoinTight(Tail(ts))
+RenderTight(e) == JoinTight(Toks(e, "min"))
 Render(e, mode, style) == (IF style = 2 THEN " " ELSE IF style = 3 THEN "\n\t" ELSE "") \o Join(Toks(e, mode), style, 0)
 =============================================================================
